@@ -34,6 +34,7 @@ type Pub struct {
 	Never    bool     // QoS 2 exchange that was never released
 	Repeats  int      // DUP repeats inside the same QoS 2 exchange
 	Will     bool
+	behind   []*Pub // QoS 2 exchanges opened earlier on the connection and still open at this one's PUBREL
 }
 
 // Grant is one subscription as granted by the broker.
@@ -247,6 +248,14 @@ func (m *Model) buildPubs() {
 				pub.Never = false
 				pub.Lo = w.First
 				pub.Hi = m.H.FinalStamp
+				// the in-flight queue releases in the order of the PUBLISHes: an
+				// exchange released before an earlier one is handed on only
+				// when that one is released too
+				for _, o := range open2 {
+					if o.W.Idx < pub.W.Idx {
+						pub.behind = append(pub.behind, o)
+					}
+				}
 				for _, rq := range m.Reqs[c] {
 					if rq.W == w && rq.Resp != nil {
 						pub.Certain = true
@@ -263,6 +272,21 @@ func (m *Model) buildPubs() {
 					}
 				}
 			}
+		}
+	}
+	// A sender must release QoS 2 exchanges in the order of its PUBLISHes
+	// (MQTT-4.6.0-3).  Where a script does not, nothing is demanded of the
+	// QoS 2 exchanges of that connection (hand-overs stay permitted).
+	unordered := map[*Conn]bool{}
+	for _, p := range m.Pubs {
+		if len(p.behind) > 0 {
+			unordered[p.C] = true
+		}
+	}
+	for _, p := range m.Pubs {
+		if p.C != nil && unordered[p.C] && p.QoS == 2 {
+			p.Certain = false
+			p.Hi = m.H.FinalStamp
 		}
 	}
 	for _, a := range h.API {
@@ -444,7 +468,19 @@ func (m *Model) buildDeliveries() {
 	}
 	for i := range m.H.CB {
 		ev := &m.H.CB[i]
-		d := &Delivery{CB: ev.CB, Topic: ev.Topic, Payload: ev.Payload, QoS: ev.QoS, Retain: ev.Retain, Stamp: ev.Stamp}
+		// In-process callbacks get the message object as published (a live
+		// forward of a retained publish still carries the flag): a call is a
+		// retained delivery only if it happens inside a Subscribe call of that
+		// callback whose filter matches the topic.
+		ret := false
+		if ev.Retain {
+			for _, a := range m.H.API {
+				if a.Op.K == "sub" && a.Op.CB == ev.CB && ev.Stamp > a.Call && ev.Stamp < a.Ret && refmqtt.ValidFilter(a.Op.Filter) && refmqtt.Match(a.Op.Filter, ev.Topic) {
+					ret = true
+				}
+			}
+		}
+		d := &Delivery{CB: ev.CB, Topic: ev.Topic, Payload: ev.Payload, QoS: ev.QoS, Retain: ret, Stamp: ev.Stamp}
 		d.Src, d.Seq, d.Intact = identify(ev.Payload)
 		d.Key = keyOf(d.Src, d.Seq)
 		if len(ev.Payload) == 0 {
